@@ -55,6 +55,11 @@ func gen(seed int64) Case {
 		return Case{Seed: seed, Version: []int16{7, 9, 11, 12, 13}[r.Intn(5)], Topics: 1 + r.Intn(3), Parts: []int{130, 400}[r.Intn(2)], NameLen: []int{3, 17, 127, 200}[r.Intn(4)], Records: 1,
 			Codec: "none", Txn: r.Intn(5) == 0, ClientID: []int{0, 3}[r.Intn(2)], MaxWrite: []int32{4096, 8192}[r.Intn(2)], MaxBatch: 1024, ValueClass: r.Intn(2)}
 	}
+	if seed%6 == 1 {
+		// the first request on a connection is packed before the produce version is known: short names against topic ids
+		return Case{Seed: seed, Version: []int16{12, 13, 13}[r.Intn(3)], Topics: []int{40, 120}[r.Intn(2)], Parts: 1 + r.Intn(3), NameLen: []int{3, 5, 11}[r.Intn(3)], Records: 1,
+			Codec: "none", ClientID: []int{0, 3}[r.Intn(2)], MaxWrite: []int32{4096, 8192}[r.Intn(2)], MaxBatch: 1024, ValueClass: r.Intn(2)}
+	}
 	return Case{Seed: seed, Version: []int16{3, 5, 7, 8, 9, 10, 11, 12, 13}[r.Intn(9)], Topics: []int{1, 2, 5, 40}[r.Intn(4)], Parts: []int{1, 3, 8, 130}[r.Intn(4)],
 		NameLen: []int{3, 16, 17, 126, 127, 200}[r.Intn(6)], Records: []int{1, 2, 5, 20}[r.Intn(4)], Codec: []string{"none", "none", "gzip", "snappy", "lz4", "zstd"}[r.Intn(6)],
 		Txn: r.Intn(4) == 0, ClientID: []int{0, 3, 127, 128}[r.Intn(4)], MaxWrite: []int32{8192, 16384, 1 << 20}[r.Intn(3)], MaxBatch: []int32{512, 1024, 8192}[r.Intn(3)], ValueClass: r.Intn(4)}
